@@ -1,4 +1,5 @@
 import PydraModel.WfState.LemmasRoute
+import PydraModel.WfState.LemmasHist
 import PydraModel.WfState.Class
 /-
 C03 — Workflow state propagation matches a nested-loop reference evaluation.   (LAYERED / PARTIAL, DESIGN §6 C03)
@@ -68,60 +69,8 @@ theorem C03_fanin_disjoint (name : Name) (ups : List (List (Key × Nat))) (fs : 
     ((inputsIndOf name (List.zipWith (fun a f => (prodL (a.map (·.2)), [f])) ups fs) own)[j]?).bind
         (fun d => d.get? (name, fs[m]'(hlen ▸ hm)))
       = ((rowMajor ((ups.flatten ++ ownAxes).map (·.2)))[j]?).map fun c =>
-          encode (ups[m].map (·.2)) (ups[m].map fun a => Spec.coordOf ((ups.flatten ++ ownAxes).map (·.1)) c a.1) := by
-  -- notation
-  let ss : List (List Nat) := ups.map (·.map (·.2))
-  let kss : List (List Key) := ups.map (·.map (·.1))
-  let oS : List Nat := ownAxes.map (·.2)
-  have hsizes : (ups.flatten ++ ownAxes).map (·.2) = ss.flatten ++ oS := by
-    simp [ss, oS, List.map_append, List.map_flatten]
-  have hkeys : (ups.flatten ++ ownAxes).map (·.1) = kss.flatten ++ ownAxes.map (·.1) := by
-    simp [kss, List.map_append, List.map_flatten]
-  have hlens : kss.map List.length = ss.map List.length := by
-    simp [kss, ss, List.map_map, Function.comp_def]
-  have hj' : j < prodL (ss.flatten ++ oS) := by rw [← hsizes]; exact hj
-  have hjm : j < prodL (ss.map prodL) * ownLen own := by
-    rw [hown, prodL_flatten, ← prodL_append]; exact hj'
-  have hpos : 0 < prodL oS := by
-    rcases Nat.eq_zero_or_pos (prodL oS) with h0 | h0
-    · rw [prodL_append, h0] at hj'; simp at hj'
-    · exact h0
-  have hq : j / prodL oS < prodL ss.flatten :=
-    Nat.div_lt_of_lt_mul (by rw [Nat.mul_comm, ← prodL_append]; exact hj')
-  -- model side
-  have hz : List.zipWith (fun a f => (prodL (a.map (·.2)), [f])) ups fs
-          = List.zipWith (fun n f => (n, [f])) (ss.map prodL) fs := by
-    simp [ss, List.zipWith_map_left, List.map_map]
-  have hmf : m < fs.length := hlen ▸ hm
-  have hlen' : fs.length = (ss.map prodL).length := by simp [ss, hlen]
-  rw [hz, inputsIndOf_single_get name (ss.map prodL) fs hlen' hfs own hk j hjm m hmf]
-  -- spec side
-  rw [hsizes, rowMajor_getElem? _ j hj', Option.map_some, hkeys]
-  congr 1
-  have hcl : (decode (ss.flatten ++ oS) j).length = (kss.flatten ++ ownAxes.map (·.1)).length := by
-    rw [decode_length]
-    simp [kss, ss, oS, List.length_flatten, List.map_map, Function.comp_def]
-  have hkm : m < kss.length := by simpa [kss] using hm
-  have hblock := coordOf_block kss (ownAxes.map (·.1)) (decode (ss.flatten ++ oS) j) hcl hdisj m hkm
-  have e1 : (ups[m].map fun a => Spec.coordOf (kss.flatten ++ ownAxes.map (·.1)) (decode (ss.flatten ++ oS) j) a.1)
-          = kss[m].map (Spec.coordOf (kss.flatten ++ ownAxes.map (·.1)) (decode (ss.flatten ++ oS) j)) := by
-    simp [kss, List.map_map, Function.comp_def]
-  rw [e1, hblock, hlens, decode_append _ _ _ hj']
-  rw [splitBlocks_append _ _ _ (by rw [decode_length, List.length_flatten]; exact Nat.le_refl _)]
-  -- the mixed-radix theorem
-  have hr := C03_routing ss (j / prodL oS) hq
-  have hml : m < (List.zipWith encode ss (splitBlocks (ss.map List.length) (decode ss.flatten (j / prodL oS)))).length := by
-    rw [hr, decode_length]; simp [ss]; exact hm
-  have hsb : m < (splitBlocks (ss.map List.length) (decode ss.flatten (j / prodL oS))).length := by
-    rw [List.length_zipWith] at hml; omega
-  have := congrArg (fun l => l[m]?) hr
-  simp only [List.getElem?_eq_getElem hml, List.getElem_zipWith] at this
-  rw [List.getElem?_eq_getElem (by rw [decode_length]; simp [ss]; exact hm)] at this
-  have h3 := Option.some.inj this
-  rw [List.getD_eq_getElem?_getD, List.getElem?_eq_getElem hsb, Option.getD_some]
-  have hs : ss[m]'(by simp [ss]; exact hm) = ups[m].map (·.2) := by simp [ss]
-  rw [hs] at h3
-  rw [h3, hown]
+          encode (ups[m].map (·.2)) (ups[m].map fun a => Spec.coordOf ((ups.flatten ++ ownAxes).map (·.1)) c a.1) :=
+  fanin_disjoint name ups fs ownAxes own hlen hfs hdisj hown hk j hj m hm
 
 /-- CHAIN: one upstream state `up` feeding field `f` of a node (with or without an own splitter). -/
 theorem C03_chain (name : Name) (up : List (Key × Nat)) (f : Fld)
@@ -144,44 +93,13 @@ open Model
 
 /-! ### helper characterisation: `_add_state_history` -/
 
-theorem histPrevLoop_noop (wCur : List Name) (infos : List UpInfo) (acc : Other × List Name)
-    (h : ∀ i ∈ infos, i.prev.filter wCur.contains = []) : histPrevLoop wCur infos acc = .ok acc := by
-  induction infos generalizing acc with
-  | nil => rfl
-  | cons i rest ih =>
-    obtain ⟨other, prev⟩ := acc
-    have hi := h i (by simp)
-    simp only [histPrevLoop, hi, List.isEmpty_nil, if_true]
-    exact ih _ (fun i' hi' => h i' (List.mem_cons_of_mem _ hi'))
-
-theorem histBothLoop_noop (wCur : List Name) (infos : List UpInfo) (prev : List Name)
-    (h : ∀ i ∈ infos, i.prev.filter wCur.contains = []) : histBothLoop wCur infos prev = .ok prev := by
-  induction infos generalizing prev with
-  | nil => rfl
-  | cons i rest ih =>
-    have hi := h i (by simp)
-    simp only [histBothLoop, hi, dedup, removeAll]
-    exact ih _ (fun i' hi' => h i' (List.mem_cons_of_mem _ hi'))
-
 /-- EXACT BEHAVIOUR OF `_add_state_history` IN THE CLASS: when no previous state that has connections of its own lists a
     directly connected root state in its prev-state part, the list of previous states and `other_states` are returned
     unchanged.  (`NoSharedOrigin` implies the hypothesis: such a root would be a common origin.) -/
 theorem C03_history_noop (infos : List UpInfo) (other : Other) (prev : List Name)
     (h : ∀ i ∈ infos, i.hasOther = true → ∀ r ∈ i.prev, r ∉ rootsOf infos) :
-    historyCore infos other prev = .ok (other, prev) := by
-  have hf : ∀ (p : UpInfo → Bool), (∀ i, p i = true → i.hasOther = true) →
-      ∀ i ∈ infos.filter p, i.prev.filter (rootsOf infos).contains = [] := by
-    intro p hp i hi
-    rw [List.filter_eq_nil_iff]
-    intro r hr hc
-    have hmem := List.mem_filter.mp hi
-    exact h i hmem.1 (hp i hmem.2) r hr (by simpa using hc)
-  unfold historyCore
-  simp only [bind, Except.bind]
-  rw [histPrevLoop_noop _ _ _ (hf _ (by intro i hi; simp at hi; exact hi.1))]
-  simp only
-  rw [histBothLoop_noop _ _ _ (hf _ (by intro i hi; simp at hi; exact hi.1))]
-  rfl
+    historyCore infos other prev = .ok (other, prev) :=
+  historyCore_noop infos other prev h
 
 /-- Non-vacuity: fan-in from two independent root states satisfies the hypothesis. -/
 example : historyCore [⟨0, false, true, []⟩, ⟨1, false, true, []⟩] [(0, [.x]), (1, [.y])] [0, 1]
